@@ -643,9 +643,18 @@ def _finish_cut(asm, c, text, hits, kv, secs, kind):
                 raise CutError('anchor lost: loop %d of %s (function has %d loops)' % (k, fname, len(lp)))
             at = lp[k - 1]
             lab = 'loop%d' % k
-        elif t0 in ('before', 'after'):
+        elif t0 in ('before', 'after', 'before_opt', 'after_opt'):
+            # *_opt: a proof hint for a statement that may legitimately be absent (e.g. a helper call that was inlined): if the
+            # anchor is not there the hint is dropped -- the obligations it helped then stand or fall on their own
             k = int(tk[2]) if len(tk) > 2 else 1
-            idx = _find_code_occurrence(text, tk[1], k, '%s of %s' % (t0, fname))
+            try:
+                idx = _find_code_occurrence(text, tk[1], k, '%s of %s' % (t0, fname))
+            except CutError:
+                if t0.endswith('_opt'):
+                    hits['hint_dropped:' + tk[1][:40]] = hits.get('hint_dropped:' + tk[1][:40], 0) + 1
+                    continue
+                raise
+            t0 = t0.replace('_opt', '')
             if t0 == 'before':
                 at = text.rfind('\n', 0, idx) + 1
             else:
